@@ -246,7 +246,11 @@ func (w *srvWorld) checkC08(active0 string) {
 		}
 		for _, m := range msg.Members {
 			if m.Kind == mNote && m.Enters == 0 {
-				r.Fail("notification-lost", "notification %s of message %d was received (#%d) and enqueued (the server had called Recv again) before the first stop cause (#%d), yet its handler never ran", m.Tag, msg.Idx, msg.Arrive, fc)
+				how := "and enqueued (the server had called Recv again) before the first stop cause"
+				if msg.WithEOF {
+					how = "as the final record of the stream (Recv returned it together with io.EOF, and no other stop cause came first), which is before the stop that this end of stream causes"
+				}
+				r.Fail("notification-lost", "notification %s of message %d was received (#%d) %s (#%d), yet its handler never ran", m.Tag, msg.Idx, msg.Arrive, how, fc)
 				return
 			}
 			if m.Kind == mNote && m.Enters > 1 {
@@ -258,15 +262,9 @@ func (w *srvWorld) checkC08(active0 string) {
 	if w.restarted {
 		// the server is already running again on the fresh channel; the gauge and
 		// the census are judged after that connection has ended (restartProbe)
-		if w.activeAtRestart != active0 {
-			r.Fail("servers-active-delta", "servers_active was %s when WaitStatus returned, %s before Start", w.activeAtRestart, active0)
-		}
 		return
 	}
-	if a := serversActive(); a != active0 {
-		r.Fail("servers-active-delta", "servers_active is %s after WaitStatus returned, was %s before Start", a, active0)
-		return
-	}
+	// (the servers_active metric is not judged: no property speaks about it)
 	w.census("after WaitStatus")
 }
 
@@ -394,10 +392,6 @@ func (w *srvWorld) restartProbe(active0 string, sEnd, pEnd *End) {
 			return
 		}
 	}
-	if a := serversActive(); a != active0 {
-		r.Fail("servers-active-delta", "servers_active is %s after the restarted server exited, was %s", a, active0)
-		return
-	}
 	w.census("after restart")
 }
 
@@ -424,9 +418,16 @@ func (w *srvWorld) servedAfter(c stopCause) bool {
 			}
 		}
 	}
-	for _, o := range w.out {
-		if o.Seq > qp && o.Seq < w.waitSeq {
-			return true
+	// a Send that succeeded (one on a channel the server has already closed
+	// fails and proves nothing: replies of handlers that finish after a stop are
+	// still passed to the closed channel)
+	for seq, e := range w.r.Sim.Events {
+		if seq > qp && seq < w.waitSeq && e.Kind == "ch.send.end" && e.Tag == "srv" && e.S == "" {
+			for _, o := range w.out {
+				if o.Seq > qp && o.Seq < seq {
+					return true
+				}
+			}
 		}
 	}
 	return false
